@@ -103,7 +103,7 @@ Print Assumptions C07_T4_integer.
     prefix (xsd: rdf: dt: geo: bound as wired) or with an <IRI> -- gets the
     datatype the spec assigns to it; with the IRI, blank-node and integer cases
     this gives the object hypothesis of T1. *)
-From Shexer Require Import Proofs.TtlLiteral Proofs.TtlClean Proofs.TtlTokens Proofs.TtlCompose.
+From Shexer Require Import Proofs.TtlLiteral Proofs.TtlClean Proofs.TtlTokens Proofs.TtlScan Proofs.TtlCompose.
 
 Theorem C07_T4_literal : forall e s lex sfx o,
   env_match e s -> okL e lex sfx = true -> sem_obj e (OLit lex sfx) = Some o ->
@@ -131,53 +131,55 @@ Theorem C07_T1_T4 : forall e s0 gs (ls : list (list atok)) tss s,
 Proof. exact groups_any_split. Qed.
 Print Assumptions C07_T1_T4.
 
-(** T3 (cleaning), partial.  [norm] = the white-space part of [_clean_line]
-    (CR/LF/TAB to blank, runs of blanks to one, strip).  On a line made of a
-    run of blanks/tabs, words (no CR/LF/TAB, no two blanks in a row, no white
-    space at either end) separated by non-empty runs of blanks/tabs, and
-    optionally '#' and a comment after a non-empty run: *)
-(** (a) without comment the result is the words joined by single blanks *)
+(** T3 (cleaning).  [norm] = the white-space part of [_clean_line] (CR/LF/TAB
+    to blank, runs of blanks to one, strip).  On a line made of a run of
+    blanks/tabs, words (no CR/LF/TAB, no two blanks in a row, no white space at
+    either end) separated by non-empty runs of blanks/tabs, and optionally '#'
+    and a comment after a non-empty run -- where every word is [transparent]
+    to the comment scan (proved for every token of the dialect: a run of
+    non-blank non-quote characters not starting with '#', or a quoted string
+    with backslash escapes followed by a blank-free suffix): *)
+(** (a) without comment the result is the words joined by single blanks, even
+    when a string contains blank-# *)
 Theorem C07_T3_plain : forall lead pairs,
   hspace lead = true -> forallb (fun wg => word_ok (fst wg)) pairs = true -> pair_gaps_ok pairs = true ->
-  pairs <> [] -> Forall word_nohash (map fst pairs) ->
+  pairs <> [] -> Forall transparent (map fst pairs) ->
   clean_line (lead ++ render_pairs pairs) = Ok (jwords pairs).
 Proof. exact clean_words_plain. Qed.
 Print Assumptions C07_T3_plain.
 
-(** (b) with a comment, when neither the words nor the comment contain a
-    quote, exactly the comment (and the blank before it) is removed *)
-Theorem C07_T3_comment_partial : forall lead pairs,
+(** (b) with a comment -- whatever it contains -- exactly the comment (and the
+    blank before it) is removed *)
+Theorem C07_T3_comment : forall lead pairs,
   hspace lead = true -> forallb (fun wg => word_ok (fst wg)) pairs = true -> pair_gaps_ok pairs = true ->
-  pairs <> [] -> Forall word_nohash (map fst pairs) ->
+  pairs <> [] -> Forall transparent (map fst pairs) ->
   forall cmt, last_gap_empty pairs = false ->
-  Forall (fun wg => quote_free (fst wg) /\ quote_free (snd wg)) pairs -> quote_free cmt ->
   clean_line (lead ++ render_pairs pairs ++ Str "#" ++ cmt) = Ok (jwords pairs).
 Proof. exact clean_words_comment. Qed.
-Print Assumptions C07_T3_comment_partial.
-(** Missing from T3: lines that carry a string literal AND a comment (or
-    blank-# inside a literal): there [_remove_comments_if_needed] takes the
-    quote-scanning path; its known faults are C07-F10/F11/F12, its correct
-    cases are covered by the correspondence check only. *)
+Print Assumptions C07_T3_comment.
 
-(** C07 (partial): the composition T3 ; T2 ; T1 ; T4 on whole documents.
-    [C07_partial_dom ls d] = [C07_dom ls d] (no root cause of a known finding)
-    && every line [line_simple] (a line with a string literal carries no
-    comment and no blank-# inside a literal; comments elsewhere are quote-free).
-    For EVERY document [d] of the dialect (directives anywhere between
-    statement groups) and EVERY layout [ls] of it (line breaks at ANY token
-    boundary, tabs / repeated blanks, whole-line and trailing comments) in that
-    domain, the reader run on the TEXT of the document yields exactly the
-    triples of the document (up to lexical forms), in document order, raises
-    nothing, does not hang, and ends waiting for a subject.
-    Missing for the full C07: only the lines excluded by [line_simple] (see
-    T3); there the theorem's hypothesis fails and the correspondence check is
-    the only evidence. *)
-Theorem C07_partial : forall ls d ts,
-  lays_out ls d -> C07_partial_dom ls d = true -> sem d = Some ts ->
+(** (c) the tokens of the dialect are transparent *)
+Theorem C07_T3_tokens : forall t, tok_ok_line t = true ->
+  word_ok (render_tok t) = true /\ tshape (render_tok t) /\ transparent (render_tok t).
+Proof. exact tok_line_facts. Qed.
+Print Assumptions C07_T3_tokens.
+
+(** C07: the composition T3 ; T2 ; T1 ; T4 on whole documents.
+    [C07_dom ls d] = no root cause of a remaining known finding in [d]
+    (it no longer depends on the layout).  For EVERY document [d] of the
+    dialect (directives anywhere between statement groups) inside [C07_dom] and
+    EVERY layout [ls] of it (line breaks at ANY token boundary, tabs /
+    repeated blanks, whole-line and trailing comments with any content,
+    strings containing '#' ';' ',' '.' and escapes) the reader run on the TEXT
+    of the document yields exactly the triples of the document (up to lexical
+    forms), in document order, raises nothing, does not hang, and passes the
+    end-of-input check. *)
+Theorem C07 : forall ls d ts,
+  lays_out ls d -> C07_dom ls d = true -> sem d = Some ts ->
   exists s' ts', read_ttl (render_doc ls) = (ts', Ok s') /\
                  map erase_lex ts' = map erase_lex ts /\ state s' = WS.
-Proof. exact reader_correct_dom. Qed.
-Print Assumptions C07_partial.
+Proof. exact reader_correct. Qed.
+Print Assumptions C07.
 
 (** Rejection.  The two syntactic escapes the code tests end in ValueError,
     never in different triples: (1) a closing quote followed by a character
@@ -246,8 +248,7 @@ Proof.
   eexists. split; [vm_compute; reflexivity|]. split; vm_compute; reflexivity.
 Qed.
 
-(** non-vacuity of [C07_partial]: prologue + groups, line breaks inside the
-    statement, comments on lines without literal, literals on comment-free lines *)
+(** a second inhabitant of the domain of [C07] *)
 Definition ex2_dirs : list directive := [DPrefix (Str "ex") (IAbs (Str "http://e/")); DPrefix (Str "xsd") (IAbs xsd_ns)].
 Definition ex2_gs : list group :=
   [Group (SIri (ex "s"))
@@ -265,9 +266,9 @@ Definition ex2_lines : list line :=
    LToks [] [(ADot, sp); (ASubj (SBn (Str "b1")), [])] None;
    LToks [] [(APred (PIri (IAbs (Str "http://e/q"))), sp); (AObj (OBn (Str "b2")), sp); (ADot, sp)] (Some [])].
 
-Example C07_partial_inhabited :
+Example C07_dom_inhabited_2 :
   lays_out ex2_lines (map IDir ex2_dirs ++ map IGrp ex2_gs) /\
-  C07_partial_dom ex2_lines (map IDir ex2_dirs ++ map IGrp ex2_gs) = true /\
+  C07_dom ex2_lines (map IDir ex2_dirs ++ map IGrp ex2_gs) = true /\
   exists ts, sem (map IDir ex2_dirs ++ map IGrp ex2_gs) = Some ts /\ List.length ts = 5%nat.
 Proof.
   split; [repeat split; vm_compute; reflexivity|]. split; [vm_compute; reflexivity|].
@@ -289,11 +290,11 @@ Definition one_line (s : subj) (p : pred) (o : object) : line := toks_line [ASub
 Definition exs := SIri (ex "s").
 Definition exp := PIri (ex "p").
 
-(** C07-F1: <#frag> against @base loses '#' *)
+(** C07-F1: </x> against @base loses '/' and is appended to the base *)
 Lemma C07_ini_base_refuted : exists ls d, ~ full_statement ls d.
 Proof.
-  refute [base_line "http://b/d/"; L_ex; one_line exs exp (OIri (IRel (Str "#frag")))]
-         [IDir (DBase (IAbs (Str "http://b/d/"))); P_ex; one exs exp (OIri (IRel (Str "#frag")))].
+  refute [base_line "http://b/d/"; L_ex; one_line exs exp (OIri (IRel (Str "/x")))]
+         [IDir (DBase (IAbs (Str "http://b/d/"))); P_ex; one exs exp (OIri (IRel (Str "/x")))].
 Qed.
 
 (** C07-F2: resolution by concatenation *)
@@ -302,24 +303,6 @@ Proof.
   refute [base_line "http://b/x"; L_ex; one_line (SIri (IRel (Str "s"))) exp (OIri (ex "o"))]
          [IDir (DBase (IAbs (Str "http://b/x"))); P_ex; one (SIri (IRel (Str "s"))) exp (OIri (ex "o"))].
 Qed.
-
-(** C07-F3: absolute IRIs not starting with "http" get the base prepended *)
-Lemma C07_abs_test_refuted : exists ls d, ~ full_statement ls d.
-Proof.
-  refute [base_line "http://b/"; L_ex; one_line exs exp (OIri (IAbs (Str "urn:a:b")))]
-         [IDir (DBase (IAbs (Str "http://b/"))); P_ex; one exs exp (OIri (IAbs (Str "urn:a:b")))].
-Qed.
-
-(** C07-F4: a base not starting with "http" is applied twice *)
-Lemma C07_double_base_refuted : exists ls d, ~ full_statement ls d.
-Proof.
-  refute [base_line "ftp://b/"; L_ex; one_line (SIri (IRel (Str "s"))) exp (OIri (ex "o"))]
-         [IDir (DBase (IAbs (Str "ftp://b/"))); P_ex; one (SIri (IRel (Str "s"))) exp (OIri (ex "o"))].
-Qed.
-
-(** C07-F5: str.replace expands every occurrence of the prefix *)
-Lemma C07_replace_all_refuted : exists ls d, ~ full_statement ls d.
-Proof. refute [L_ex; one_line exs exp (OIri (ex "aex:b"))] [P_ex; one exs exp (OIri (ex "aex:b"))]. Qed.
 
 (** C07-F6: custom-prefixed datatype raises *)
 Lemma C07_dt_custom_prefix_refuted : exists ls d, ~ full_statement ls d.
@@ -348,28 +331,6 @@ Proof.
          [P_ex; one exs exp (OLit (Str "a\""^^b") (LTyped (IAbs (Str "http://e/dt"))))].
 Qed.
 
-(** C07-F10: a literal at the first column of a line that carries a comment *)
-Lemma C07_quote_regex_refuted : exists ls d, ~ full_statement ls d.
-Proof.
-  refute [L_ex; toks_line [ASubj exs; APred exp];
-          LToks [] [(AObj (OLit (Str "a") LPlain), sp); (ADot, sp)] (Some (Str " note"))]
-         [P_ex; one exs exp (OLit (Str "a") LPlain)].
-Qed.
-
-(** C07-F11: ' #' inside the second literal of a line *)
-Lemma C07_first_literal_refuted : exists ls d, ~ full_statement ls d.
-Proof.
-  refute [L_ex; toks_line [ASubj exs; APred exp; AObj (OLit (Str "a") LPlain); AComma; AObj (OLit (Str "b #c") LPlain); ADot]]
-         [P_ex; IGrp (Group exs [(exp, [OLit (Str "a") LPlain; OLit (Str "b #c") LPlain])])].
-Qed.
-
-(** C07-F12: whole-line comment with a quote and ' #' *)
-Lemma C07_comment_quote_refuted : exists ls d, ~ full_statement ls d.
-Proof.
-  refute [L_ex; LToks [] [] (Some (Str " a "" #b")); one_line exs exp (OIri (ex "o"))]
-         [P_ex; one exs exp (OIri (ex "o"))].
-Qed.
-
 (** C07-F13: the IRI of @prefix is not resolved against the base *)
 Lemma C07_dir_unresolved_refuted : exists ls d, ~ full_statement ls d.
 Proof.
@@ -379,22 +340,68 @@ Proof.
           one exs exp (OIri (ex "o"))].
 Qed.
 
+(** ** regression examples: defects repaired in the reader (known_findings.json, status fixed) *)
+
+Ltac regress ls d :=
+  let ts := eval vm_compute in (match sem d with Some t => t | None => [] end) in
+  exists ts; split; [vm_compute; reflexivity | split; [repeat split; vm_compute; reflexivity | vm_compute; reflexivity]].
+
+Definition regression (ls : list line) (d : doc) : Prop :=
+  exists ts, sem d = Some ts /\ lays_out ls d /\ reads_exactly (render_doc ls) ts = true.
+
+(** <commit-4>: <#frag> keeps its '#' *)
+Example C07_fragment_regression :
+  regression [base_line "http://b/d/"; L_ex; one_line exs exp (OIri (IRel (Str "#frag")))]
+             [IDir (DBase (IAbs (Str "http://b/d/"))); P_ex; one exs exp (OIri (IRel (Str "#frag")))].
+Proof. regress [base_line "http://b/d/"; L_ex; one_line exs exp (OIri (IRel (Str "#frag")))]
+               [IDir (DBase (IAbs (Str "http://b/d/"))); P_ex; one exs exp (OIri (IRel (Str "#frag")))]. Qed.
+
+(** <commit-5>: an absolute IRI without "http" is left alone when a base is declared *)
+Example C07_abs_test_regression :
+  regression [base_line "http://b/"; L_ex; one_line exs exp (OIri (IAbs (Str "urn:a:b")))]
+             [IDir (DBase (IAbs (Str "http://b/"))); P_ex; one exs exp (OIri (IAbs (Str "urn:a:b")))].
+Proof. regress [base_line "http://b/"; L_ex; one_line exs exp (OIri (IAbs (Str "urn:a:b")))]
+               [IDir (DBase (IAbs (Str "http://b/"))); P_ex; one exs exp (OIri (IAbs (Str "urn:a:b")))]. Qed.
+
+(** <commit-3>: a base not starting with "http" is applied once *)
+Example C07_double_base_regression :
+  regression [base_line "ftp://b/"; L_ex; one_line (SIri (IRel (Str "s"))) exp (OIri (ex "o"))]
+             [IDir (DBase (IAbs (Str "ftp://b/"))); P_ex; one (SIri (IRel (Str "s"))) exp (OIri (ex "o"))].
+Proof. regress [base_line "ftp://b/"; L_ex; one_line (SIri (IRel (Str "s"))) exp (OIri (ex "o"))]
+               [IDir (DBase (IAbs (Str "ftp://b/"))); P_ex; one (SIri (IRel (Str "s"))) exp (OIri (ex "o"))]. Qed.
+
+(** <commit-6>: only the leading prefix of a prefixed name is expanded *)
+Example C07_replace_once_regression :
+  regression [L_ex; one_line exs exp (OIri (ex "aex:b"))] [P_ex; one exs exp (OIri (ex "aex:b"))].
+Proof. regress [L_ex; one_line exs exp (OIri (ex "aex:b"))] [P_ex; one exs exp (OIri (ex "aex:b"))]. Qed.
+
+(** <commit-1>: a literal at the first column of a line that carries a comment;
+    blank-# inside the second literal of a line; a whole-line comment with a quote and blank-# *)
+Example C07_comment_scan_regression :
+  regression [L_ex; LToks [] [] (Some (Str " a "" #b")); toks_line [ASubj exs; APred exp];
+              LToks [] [(AObj (OLit (Str "a") LPlain), sp); (AComma, sp)] (Some (Str " note \"""));
+              toks_line [AObj (OLit (Str "") LPlain); AComma; AObj (OLit (Str "b #c") LPlain); ADot]]
+             [P_ex; IGrp (Group exs [(exp, [OLit (Str "a") LPlain; OLit (Str "") LPlain; OLit (Str "b #c") LPlain])])].
+Proof. regress [L_ex; LToks [] [] (Some (Str " a "" #b")); toks_line [ASubj exs; APred exp];
+              LToks [] [(AObj (OLit (Str "a") LPlain), sp); (AComma, sp)] (Some (Str " note \"""));
+              toks_line [AObj (OLit (Str "") LPlain); AComma; AObj (OLit (Str "b #c") LPlain); ADot]]
+             [P_ex; IGrp (Group exs [(exp, [OLit (Str "a") LPlain; OLit (Str "") LPlain; OLit (Str "b #c") LPlain])])]. Qed.
+
 (** reject side: texts outside the dialect that are read without any error *)
 Definition no_error (text : str) : bool := match snd (read_ttl text) with Ok _ => true | Err _ => false end.
 Definition P_text : str := Str "@prefix ex: <http://e/> .".
 Definition nl (a b : str) : str := a ++ newline ++ b.
 
-(** C07-R1: the final '.' glued to the last token (valid Turtle, outside the
-    dialect): nothing is yielded, nothing is raised, the run ends with the
-    registers full *)
-Lemma C07_reject_eof_refuted :
-  exists text s, read_ttl text = ([], Ok s) /\ state s = NW.
-Proof. eexists (nl P_text (Str "ex:s ex:p ex:o.")), _. split; vm_compute; reflexivity. Qed.
+(** <commit-2>: a document ending inside a statement now raises *)
+Example C07_end_of_input_regression :
+  read_ttl (nl P_text (Str "ex:s ex:p ex:o.")) = ([], Err TEValue) /\
+  read_ttl (nl P_text (Str "ex:s ex:p ex:o")) = ([], Err TEValue).
+Proof. split; vm_compute; reflexivity. Qed.
 
 (** C07-R2: a comma glued on both sides is swallowed into one wrong IRI *)
 Lemma C07_reject_glued_refuted :
   exists text s, read_ttl text =
-    ([T (Node KIri (Str "http://e/s")) (Str "http://e/p") (ON (Node KIri (Str "http://e/o2,http://e/o3")))], Ok s).
+    ([T (Node KIri (Str "http://e/s")) (Str "http://e/p") (ON (Node KIri (Str "http://e/o2,ex:o3")))], Ok s).
 Proof. eexists (nl P_text (Str "ex:s ex:p ex:o2,ex:o3 .")), _. vm_compute. reflexivity. Qed.
 
 (** C07-R3: a closure token yields the registers whatever the state: a
